@@ -33,19 +33,18 @@ static const ber_tlv_tag_t asn_DEF_PrintableString_tags[] = {
 	(ASN_TAG_CLASS_UNIVERSAL | (19 << 2)),	/* [UNIVERSAL 19] IMPLICIT ...*/
 	(ASN_TAG_CLASS_UNIVERSAL | (4 << 2))	/* ... OCTET STRING */
 };
-static int asn_DEF_PrintableString_v2c(unsigned int value) {
+static int CC_NOTUSED asn_DEF_PrintableString_v2c(unsigned int value) {
 	return _PrintableString_alphabet[value > 255 ? 0 : value] - 1;
 }
-static int asn_DEF_PrintableString_c2v(unsigned int code) {
+static int CC_NOTUSED asn_DEF_PrintableString_c2v(unsigned int code) {
 	if(code < 74)
 		return _PrintableString_code2value[code];
 	return -1;
 }
 static asn_per_constraints_t asn_DEF_PrintableString_per_constraints = {
-	{ APC_CONSTRAINED, 4, 4, 0x20, 0x39 },	/* Value */
+	{ APC_CONSTRAINED, 7, 7, 0x20, 0x7a },	/* Value */
 	{ APC_SEMI_CONSTRAINED, -1, -1, 0, 0 },	/* Size */
-	asn_DEF_PrintableString_v2c,
-	asn_DEF_PrintableString_c2v
+	0, 0	/* No PER character map necessary */
 };
 asn_TYPE_operation_t asn_OP_PrintableString = {
 	OCTET_STRING_free,
